@@ -504,25 +504,39 @@ def classify_and_report(prop: str, tier: str, base_seed: int, agg: dict, quiet=F
             continue
         k = (viol.cls, jdump(viol.key))
         if k not in new:
-            new[k] = {"first": v, "count": 0}
+            new[k] = {"first": v, "count": 0, "cands": []}
         new[k]["count"] += 1
+        if len(new[k]["cands"]) < 12:
+            new[k]["cands"].append(v)
     for kid, hit in known_hits.items():
         out_lines.append(f"KNOWN-FINDING: property={prop} {hit['entry']['what']} (matched {hit['count']} runs)")
     exit_code = EXIT_OK
     replays = []
     os.makedirs(os.path.join(VERIF_DIR, "replays"), exist_ok=True)
     for (cls, _), item in list(new.items())[:6]:
-        v = item["first"]
-        viol = Violation.from_json(v["violation"])
-        trace = v["trace"]
-        # same-process reproduction first: a non-reproducible failure is a harness error
-        try:
-            r = replay_trace(prop, trace)
-        except BaseException as e:
-            agg["harness"].append({"error": f"replay of run {v['index']} crashed: {e!r}"})
-            continue
-        if not same_violation(r.violation, viol):
-            agg["harness"].append({"error": f"violation {cls} of run {v['index']} (seed {v['seed']}) did not reproduce on replay"})
+        # same-process reproduction first. A run whose violation does not reproduce from its own trace was not a function of its
+        # seed alone: the system under test carried state over from an EARLIER run of the same worker process (a class-level
+        # buffer, a module-level cache). Such a run is no replay file; another run of the same class that does reproduce in
+        # isolation is looked for, and only a class with no reproducible member at all is a harness error.
+        v = viol = trace = None
+        not_reproduced = []
+        for cand in item["cands"]:
+            cviol = Violation.from_json(cand["violation"])
+            try:
+                r = replay_trace(prop, cand["trace"])
+            except BaseException as e:
+                agg["harness"].append({"error": f"replay of run {cand['index']} crashed: {e!r}"})
+                break
+            if same_violation(r.violation, cviol):
+                v, viol, trace = cand, cviol, cand["trace"]
+                break
+            not_reproduced.append(cand["index"])
+        if not_reproduced:
+            agg["stats"]["probe/violating_runs_that_depend_on_an_earlier_run_of_the_process"] += len(not_reproduced)
+        if v is None:
+            if not_reproduced:
+                agg["harness"].append({"error": f"violation {cls} of runs {not_reproduced[:6]} did not reproduce on replay "
+                                                f"(state carried over from earlier runs of the worker process?)"})
             continue
         try:
             small, used = shrink(prop, trace, viol)
